@@ -486,6 +486,11 @@ func (ed Editor) InsertDefinitionsTableOpts(pos int, definitions [][2]string, wi
 		}
 		// subtract 2 from width so we can put in a left margin of "  "
 		rightCol := manip.Wrap(gem.New(def), rightWidth-2, gem.New(opts.LineSeparator))
+		if rightCol.Len() == 0 {
+			// a whitespace-only definition wraps to no lines at all; it still
+			// gets its "- " marker, the same as an empty definition does
+			rightCol.Append(gem.Zero)
+		}
 		rightCol.Apply(func(idx int, line string) []string {
 			if idx == 0 {
 				return []string{"- " + line}
